@@ -729,4 +729,151 @@ theorem no_duplicate_three_endpoints_counterexample :
     specNet threeTopo [0, 1, 2, 3] 1 1 (run threeTopo 1 (start threeTopo 1 1) [0, 0, 0, 0]) = some .processed_twice := by
   decide
 
+/-! ## Part 3 — the real cluster event handlers and the replay path
+
+    `handlers` lists the events of lib/icinga/clusterevents.cpp that a node re-relays after processing them;
+    `reRelay` is the relay step such a handler triggers; `replaySends` transcribes the visibility test of
+    `ApiListener::ReplayLog`. -/
+
+section Handlers
+variable {T : Topo}
+
+/-- **handlers_pass_origin.**  Every re-relaying handler hands the origin it received on to `RelayMessage` (the table
+    is compared on every run with what a translator extracts from clusterevents.cpp, and every row is driven through
+    the real handler by the E lines of the correspondence). -/
+theorem handlers_pass_origin : ∀ h ∈ handlers, h.passesOrigin = true := by decide
+
+/-- **handled_no_echo.**  A node that processes an event received from endpoint `msg.frm` through any of the real
+    handlers never hands it back to that endpoint, never into the sender's zone when that is a foreign zone, and never
+    into the zone the `originZone` field names when the sender is a zone peer - for every topology, connectivity, object
+    zone and iteration order. -/
+theorem handled_no_echo (h : Handler) (hh : h ∈ handlers) (msg : Msg) (objZone : Option Zone)
+    (hz : ∀ z e, e ∈ T.eps msg.to z → T.zoneOf e = z) {e : Ep} (he : e ∈ (reRelay T h msg objZone).sent) :
+    e ≠ msg.frm ∧ (T.zoneOf msg.frm ≠ T.zoneOf msg.to → T.zoneOf e ≠ T.zoneOf msg.frm) ∧
+      (T.zoneOf msg.frm = T.zoneOf msg.to → msg.originZone ≠ some (T.zoneOf e)) := by
+  have hp := handlers_pass_origin h hh
+  unfold reRelay Handler.origin relay at he
+  by_cases hr : h.relays = true
+  case neg => simp [hr] at he
+  simp only [hp, hr, ↓reduceIte] at he
+  obtain ⟨h1, h2⟩ := no_echo hz he
+  unfold originOf at h1 h2
+  refine ⟨fun heq => h1 (by rw [heq]), ?_, ?_⟩
+  · intro hne heq
+    have : (T.zoneOf msg.frm != T.zoneOf msg.to) = true := by simpa using hne
+    simp only [this, if_true] at h2
+    exact h2 (by rw [heq])
+  · intro heq
+    have : (T.zoneOf msg.frm != T.zoneOf msg.to) = false := by simpa using heq
+    simpa [this] using h2
+
+/-- **handled_meets_spec_partial.**  FULL STATEMENT: the conclusion for every `h ∈ handlers`.  One row of the real code
+    violates it (`event::SetNextNotification` is processed and never passed on - counterexample below, F-C11c), so:
+    whole-step theorem for the real handlers that reach their relaying signal handler: for every well-formed configuration, every
+    message on the wire (sender, `originZone` field), every such handler of the table and every object zone, what the node
+    queues when it re-relays the processed event satisfies the executable specification evaluated with the origin
+    the wire message defines (`originOf`: the sender's endpoint, the sender's zone if foreign, else the `originZone` field) -
+    the same predicate the check evaluates on what the real handler queued. -/
+theorem handled_meets_spec_partial (h : Handler) (hh : h ∈ handlers) (hr : h.relays = true) (msg : Msg) (objZone : Option Zone)
+    (wf : WF T msg.to) :
+    specCase maxDepth T ⟨msg.to, originOf T msg, h.objZone objZone, true⟩ ((reRelay T h msg objZone).obs T msg.to) = none := by
+  have hp := handlers_pass_origin h hh
+  unfold reRelay Handler.origin relay
+  simp only [hp, hr, ↓reduceIte]
+  exact relay_meets_spec ⟨msg.to, originOf T msg, h.objZone objZone, true⟩ wf
+
+/-- the hypothesis `relays` of `handled_meets_spec_partial` excludes exactly one row -/
+theorem handlers_relay_except_next_notification : ∀ h ∈ handlers, h.relays = true ∨ h.method = "SetNextNotification" := by decide
+
+/-- **handled_next_notification_counterexample** (F-C11c).  `event::SetNextNotification` is applied and not passed on:
+    endpoint 2 (master of zone 1) gets it from endpoint 4 (child zone 2) about an object of zone 2 and neither its peer
+    nor the parent zone ever hears of it, although both are reachable - the completeness sentence fails. -/
+theorem handled_next_notification_counterexample :
+    findHandler "SetNextNotification" = some ⟨"SetNextNotification", true, .object, false⟩ ∧
+    specCase maxDepth exT ⟨2, originOf exT ⟨2, 4, none⟩, some 2, true⟩
+      ((reRelay exT ⟨"SetNextNotification", true, .object, false⟩ ⟨2, 4, none⟩ (some 2)).obs exT 2) = some .forwarded_when_reachable := by
+  decide
+
+/-- **handler_dropping_origin_counterexample.**  The column `passesOrigin` matters: a handler that re-relays without the
+    received origin (as if the event were local) sends the event straight back to the sender, and the specification
+    rejects that as `no_echo` - endpoint 2 (zone 1) got the event from endpoint 0 (parent zone 0). -/
+theorem handler_dropping_origin_counterexample :
+    (0 : Ep) ∈ (reRelay exT ⟨"SetRemovalInfo", false, .object, true⟩ ⟨2, 0, none⟩ (some 2)).sent ∧
+    specCase maxDepth exT ⟨2, originOf exT ⟨2, 0, none⟩, some 2, true⟩
+      ((reRelay exT ⟨"SetRemovalInfo", false, .object, true⟩ ⟨2, 0, none⟩ (some 2)).obs exT 2) = some .no_echo := by decide
+
+/-- the theorems' hypotheses are met and their conclusions say something: endpoint 2 gets `event::SetNextCheck` about an
+    object of zone 2 from endpoint 0 and passes it to its peer and down, not back up -/
+example : findHandler "SetNextCheck" = some ⟨"SetNextCheck", true, .object, true⟩ ∧
+    (reRelay exT ⟨"SetNextCheck", true, .object, true⟩ ⟨2, 0, none⟩ (some 2)).sent = [4, 3] ∧
+    (reRelay exT ⟨"SetNextCheck", true, .object, true⟩ ⟨2, 0, none⟩ (some 2)).originZone = some 0 := by decide
+/-- an event relayed without security object stays in the node's zone (and would go up, where it came from) -/
+example : (reRelay exT ⟨"SendNotifications", true, .none, true⟩ ⟨2, 3, none⟩ (some 2)).sent = [0] ∧
+    (reRelay exT ⟨"SendNotifications", true, .none, true⟩ ⟨3, 2, none⟩ (some 2)).sent = [] := by decide
+
+end Handlers
+
+section Replay
+variable {T : Topo} {self target : Ep}
+
+/-- **replay_only_entitled_partial.**  FULL STATEMENT (what the property demands of the replay path): for every record,
+    `replaySends T self ro target = true → Entitled T self (zone the object had) (T.zoneOf target)`.  The code violates it
+    for objects of global zones and for records without security object (counterexamples below; F-C11a, F-C11b), so it is
+    proved with the hypothesis that the record names an object of an ordinary zone (or without zone attribute): such an
+    event is replayed to the connecting endpoint only if that endpoint's zone is the object's zone or one of its
+    ancestors - whatever zone forest, and whether or not the node is directly related to it. -/
+theorem replay_only_entitled_partial {oz : Option Zone} (hg : T.isGlobal (targetZone T self oz) = false)
+    (h : replaySends T self (.present oz) target = true) : Entitled T self oz (T.zoneOf target) := by
+  unfold replaySends canAccess at h
+  simp only [hg, Bool.false_or] at h
+  unfold Entitled
+  simp only [hg, Bool.false_eq_true, if_false]
+  exact mem_chain_anc T maxDepth _ _ ((isChildOfFuel_iff T maxDepth _ _).mp h)
+
+/-- **replay_deleted_not_sent.**  An event whose object has been deleted meanwhile is replayed to nobody (so, in
+    particular, to no endpoint that is not entitled). -/
+theorem replay_deleted_not_sent : replaySends T self .deleted target = false := rfl
+
+/-- **replay_meets_spec_partial.**  The executable specification of the replay path holds on the model for every
+    topology, node, connecting endpoint and record that names an object (present or deleted) of an ordinary zone. -/
+theorem replay_meets_spec_partial {oz : Option Zone} (hg : T.isGlobal (targetZone T self oz) = false) (ro : RecObj)
+    (hro : ro = .present oz ∨ ro = .deleted) :
+    specReplay maxDepth T self true oz target (replaySends T self ro target) = none := by
+  rcases hro with rfl | rfl
+  · unfold specReplay
+    by_cases hs : replaySends T self (.present oz) target = true
+    · have : entitledB maxDepth T self oz (T.zoneOf target) = true := by
+        unfold replaySends canAccess at hs
+        simp only [hg, Bool.false_or] at hs
+        unfold entitledB
+        simp only [hg, Bool.false_eq_true, if_false]
+        exact hs
+      simp [this]
+    · simp [hs]
+  · simp [specReplay, replaySends]
+
+/-- **replay_global_counterexample** (F-C11a).  An event about an object of a GLOBAL zone, which the live relay hands to
+    the node's own zone and its direct children only, is replayed to an endpoint of the PARENT zone: endpoint 2 (zone 1)
+    replays it to endpoint 0 (zone 0). -/
+theorem replay_global_counterexample :
+    (0 : Ep) ∉ (relay exT 2 Origin.loc (some 3) true).sent ∧ replaySends exT 2 (.present (some 3)) 0 = true ∧
+    specReplay maxDepth exT 2 true (some 3) 0 (replaySends exT 2 (.present (some 3)) 0) = some .replay_global_own_zone_and_children := by
+  decide
+
+/-- **replay_no_object_counterexample** (F-C11b).  An event relayed without security object (own zone and the zones
+    above) is replayed to an endpoint of a CHILD zone: endpoint 2 (zone 1) replays it to endpoint 4 (zone 2). -/
+theorem replay_no_object_counterexample :
+    (4 : Ep) ∉ (relay exT 2 Origin.loc none true).sent ∧ replaySends exT 2 .absent 4 = true ∧
+    specReplay maxDepth exT 2 false none 4 (replaySends exT 2 .absent 4) = some .replay_no_object_own_zone_and_above := by
+  decide
+
+/-- hypotheses satisfiable, conclusion not trivial: the event about an object of zone 2 is replayed upwards and to the
+    peer, not to anybody else; the specification rejects a replay to a sibling / child zone -/
+example : exT.isGlobal (targetZone exT 2 (some 1)) = false ∧ replaySends exT 2 (.present (some 1)) 0 = true ∧
+    replaySends exT 2 (.present (some 1)) 3 = true ∧ replaySends exT 2 (.present (some 1)) 4 = false := by decide
+example : specReplay maxDepth exT 2 true (some 1) 4 true = some .replay_only_entitled ∧
+    specReplay maxDepth exT 2 true (some 1) 0 true = none := by decide
+
+end Replay
+
 end Icinga.C11
